@@ -29,6 +29,7 @@ def run(ctx: Ctx) -> None:
     effects.rule_noise_order(ctx)
     hooks.rule_pair_noise_applied(ctx)
     effects.rule_shared_op_store(ctx)
+    effects.rule_stale_swap_read(ctx)
     tm = repo.module(gatesum.TRANSFORM)
     handled = tables.handled_tags_chain(repo, tm, repo.anchor(gatesum.TRANSFORM, "run_circuit"))
     tables.rule_vocab(ctx, "vocab.gates", [(NM, "PauliError.apply")], "run_circuit", handled)
@@ -38,6 +39,7 @@ def run(ctx: Ctx) -> None:
 
 
 KNOCKOUTS = [
+    Knockout("stale-swap-read", CBASE, sub_once("                            tmp_noise = [noise_copy[0], nm.NoNoise]", "                            tmp_noise = [op.noise[0], nm.NoNoise]"), "effect.stale-swap-read", "swap of op.noise", on_fixed_only=True),
     Knockout("pair-noise-early-return", hooks.DM, sub_once("            control_noise.apply(\n                state, n_quantum, [q_index(op.control, op.control_type)]\n            )\n            target_noise.apply", "            control_noise.apply(\n                state, n_quantum, [q_index(op.control, op.control_type)]\n            )\n            if isinstance(target_noise, nm.NoNoise):\n                return\n            control_noise.apply"), "noise.both-applied", "pair noise"),
     Knockout("A3-photonloss-mixed", NM,
              sub_once("        elif isinstance(state_rep, MixedStabilizer):\n            mixture = state_rep.mixture\n            for i in range(len(mixture)):\n                mixture[i] = ((1 - loss_rate) * mixture[i][0], mixture[i][1])\n", ""),
